@@ -272,6 +272,9 @@ HARNESSES = {
             "released blocks are zero-filled and quarantined by the interposed allocator (use after release is an oracle failure); realloc always moves",
             "AddressSanitizer (clang 14) reports out-of-bounds accesses; leaks are judged by the ledger, not LeakSanitizer",
             "an injected allocation failure (one-shot, n-th request) leaves the values of the object it hit unspecified: only structural validity, absence of leaks and releasability are judged for it until it is destroyed or fully overwritten by a copy"]},
+        # integration part of C13: the copies the shipped storage devices keep of their properties (harness stor
+        # with VH_FOCUS=C13: after every accepted set the device's copy is read back and compared field by field)
+        "also": {"C13": {"harness": "stor", "quick": {"rc_cases": 3000, "rc_size": 30}, "thorough": {"rc_cases": 40000, "rc_size": 50}}},
         "quick": {"rc_cases": 40000, "rc_size": 40},
         "thorough": {"rc_cases": 600000, "rc_size": 60, "fz_secs": 120},
     },
